@@ -50,12 +50,23 @@ def plain_event(e, thmap):
     k = e.__class__.get_name()
     t = int(round(e.time * 1000))
 
+    def _sort_key(n):
+        # Events.n_rank: suite.rank for a suite; for a test the integer order-isomorphic to the pair ReportWriter sorts by,
+        # (test.rank, position of the test in its suite): rank * 2^20 + position (see Model/Events.v, harness/props/c18.py)
+        from lemoncheesecake.testtree import BaseTest
+        rank = getattr(n, "rank", 0)
+        if not isinstance(n, BaseTest):
+            return rank
+        siblings = n.parent_suite.get_tests() if n.parent_suite else [n]
+        pos = next((i for i, x in enumerate(siblings) if x is n), 0)
+        return rank * (2 ** 20) + pos
+
     def node(n):
         hier = list(n.hierarchy)
         return {"parent": [x.name for x in hier[:-1]],
                 "meta": {"name": n.name, "description": n.description, "tags": list(n.tags),
                          "properties": [[a, b] for a, b in n.properties.items()], "links": [[u, d] for u, d in n.links]},
-                "rank": getattr(n, "rank", 0)}
+                "rank": _sort_key(n)}
 
     def loc(l):
         kinds = {0: "session_setup", 1: "session_teardown", 2: "suite_setup", 3: "suite_teardown", 4: "test"}
